@@ -122,6 +122,9 @@ pub enum Scenario {
   PushSendPeerFull,
   DealerMultipartPeerFull,
   RouterMultipartPeerFull,
+  /// REQ send() blocked on a full pipe (the REP never reads; earlier requests were given up on
+  /// after RCVTIMEO, lazy-pirate style)
+  ReqSendPeerFull,
   /// recv() parked on an empty queue; a message arrives later
   PullRecvArrival,
   SubRecvArrival,
@@ -139,13 +142,14 @@ pub enum Scenario {
   DealerFragmentedContended,
 }
 
-const ALL: [Scenario; 18] = [
+const ALL: [Scenario; 19] = [
   Scenario::PushSendNoPeer,
   Scenario::DealerSendNoPeer,
   Scenario::ReqSendNoPeer,
   Scenario::PushSendPeerFull,
   Scenario::DealerMultipartPeerFull,
   Scenario::RouterMultipartPeerFull,
+  Scenario::ReqSendPeerFull,
   Scenario::PullRecvArrival,
   Scenario::SubRecvArrival,
   Scenario::DealerRecvMultipartArrival,
@@ -422,6 +426,61 @@ async fn run_scenario(sc: Scenario, tr: Transport, n: Cut) -> Outcome {
       }
       let _ = receiver.close().await;
       let _ = sender.close().await;
+    }
+    // ------------------------------------------------------------------ REQ send, pipe full
+    Scenario::ReqSendPeerFull => {
+      let (rep, ep) = match stack::bound(&ctx, "REP", tr, &[stack::i32opt(opt::RCVHWM, 1), stack::i32opt(opt::RCVBUF, 8192)]).await {
+        Ok(x) => x,
+        Err(e) => bail!(e),
+      };
+      let req = match stack::connected(&ctx, "REQ", &ep, &[stack::i32opt(opt::SNDHWM, 1), stack::i32opt(opt::SNDTIMEO, -1), stack::i32opt(opt::RCVTIMEO, 30), stack::i32opt(opt::SNDBUF, 8192)]).await {
+        Ok(s) => s,
+        Err(e) => bail!(e),
+      };
+      tokio::time::sleep(settle).await;
+      let big = if tr == Transport::Inproc { 64 } else { 128 * 1024 };
+      // requests nobody answers: send, give up after RCVTIMEO, send again ... until a send blocks
+      let mut k = 0u32;
+      let mut blocked = false;
+      while k < 600 {
+        match tokio::time::timeout(Duration::from_millis(150), req.send(acc_message(1, k, &[big]).remove(0))).await {
+          Ok(Ok(())) => {
+            k += 1;
+            let _ = req.recv().await; // times out after 30 ms; the socket goes back to sending (known finding of C10)
+          }
+          Ok(Err(e)) => bail!(format!("fill: send failed: {}", e)),
+          Err(_) => {
+            blocked = true; // this blocked send() was dropped by the timeout: a first cancellation
+            break;
+          }
+        }
+      }
+      if !blocked {
+        bail!("the REQ's pipe never filled".into());
+      }
+      let r2 = req.clone();
+      let m = acc_message(1, 9000, &[big]).remove(0);
+      let r = cancel_after(async move { r2.send(m).await }, n, pend.clone(), wakes.clone()).await;
+      out.completed = r.is_some();
+      if let Some(Err(e)) = &r {
+        if stack::err_kind(e) == "invalid_state" {
+          out.violation = Some(viol(sc, n, "socket_stuck", format!("after a send() that blocked on a full pipe was dropped, the next send() is rejected: {}", e)));
+        }
+      }
+      if matches!(r, Some(Ok(()))) {
+        // it went through after all: the reply never comes, give up on it as before
+        let _ = req.recv().await;
+      }
+      if out.violation.is_none() {
+        match tokio::time::timeout(Duration::from_millis(200), req.send(acc_message(1, 9001, &[big]).remove(0))).await {
+          Ok(Err(e)) if stack::err_kind(&e) == "invalid_state" => {
+            out.violation = Some(viol(sc, n, "socket_stuck", format!("after a send() that blocked on a full pipe was dropped, the next send() is rejected: {}", e)));
+          }
+          _ => {}
+        }
+      }
+      let _ = rep.close().await;
+      let _ = req.close().await;
     }
     // ------------------------------------------------------------------ frame-by-frame send
     Scenario::RouterFragmented(_) | Scenario::DealerFragmentedContended => {
@@ -787,7 +846,7 @@ fn run_real(sc: Scenario, tr: Transport, n: Cut) -> Outcome {
 }
 
 fn is_send(sc: Scenario) -> bool {
-  matches!(sc, Scenario::PushSendNoPeer | Scenario::DealerSendNoPeer | Scenario::ReqSendNoPeer | Scenario::PushSendPeerFull | Scenario::DealerMultipartPeerFull | Scenario::RouterMultipartPeerFull | Scenario::RouterFragmented(_) | Scenario::DealerFragmentedContended)
+  matches!(sc, Scenario::PushSendNoPeer | Scenario::DealerSendNoPeer | Scenario::ReqSendNoPeer | Scenario::PushSendPeerFull | Scenario::DealerMultipartPeerFull | Scenario::RouterMultipartPeerFull | Scenario::ReqSendPeerFull | Scenario::RouterFragmented(_) | Scenario::DealerFragmentedContended)
 }
 
 pub fn run(run: &mut Run) {
